@@ -93,6 +93,7 @@ type PathResult struct {
 	status      string // done, assume, infeasible, unsupported, unwind, budget, panic
 	detail      string
 	nBranchQ    int
+	nEdges      int
 	nAssertQ    int
 	nAssertOK   int
 	nAssertTriv int
